@@ -42,11 +42,22 @@ def build_harness(release=False):
     env = dict(os.environ, CARGO_NET_OFFLINE="true")
     cmd = ["cargo", "build", "--offline"] + (["--release"] if release else [])
     t0 = time.time()
-    p = subprocess.run(cmd, cwd=HARNESS, env=env, stdout=subprocess.PIPE, stderr=subprocess.STDOUT, text=True)
+    hdir = HARNESS
+    lane = os.environ.get("XV_REPO", "")
+    if lane and os.path.abspath(lane) != "/repo":
+        # development aid (never set by the commands registered in MANIFEST.json): build the harness against another copy
+        # of the crate, e.g. the /repo snapshot of a `vp run --with-repo`, so that a long run is not disturbed by what
+        # happens to /repo meanwhile
+        hdir = os.path.join(WORK, "harness_lane")
+        os.makedirs(hdir, exist_ok=True)
+        subprocess.run(["rsync", "-a", "--delete", "--exclude", "target", HARNESS + "/", hdir + "/"], check=True)
+        ct = open(os.path.join(hdir, "Cargo.toml")).read().replace('path = "/repo"', 'path = "%s"' % os.path.abspath(lane))
+        open(os.path.join(hdir, "Cargo.toml"), "w").write(ct)
+    p = subprocess.run(cmd, cwd=hdir, env=env, stdout=subprocess.PIPE, stderr=subprocess.STDOUT, text=True)
     if p.returncode != 0:
         log(p.stdout[-4000:])
         raise ToolError("harness build failed")
-    exe = os.path.join(HARNESS, "target", "release" if release else "debug", "xv")
+    exe = os.path.join(hdir, "target", "release" if release else "debug", "xv")
     if not os.path.exists(exe):
         raise ToolError("harness binary missing")
     log(f"[build] harness ({'release' if release else 'dev'}) built in {time.time()-t0:.1f}s")
